@@ -6,6 +6,6 @@ if [ ! -d "$WT" ]; then git -C /repo worktree add --detach "$WT" HEAD -q; fi
 git -C "$WT" checkout -q -- . && git -C "$WT" clean -fdq
 git -C "$WT" checkout -q --detach $(git -C /repo rev-parse HEAD)
 git -C "$WT" apply "$PATCH" || { echo "patch does not apply"; exit 2; }
-(cd /verif && VERIF_REPO="$WT" bin/check $P "${@:4}" 2>&1 | tail -8); rc=${PIPESTATUS[0]}
+out=$(cd /verif && VERIF_REPO="$WT" bin/check $P "${@:4}" 2>&1); rc=$?; echo "$out" | tail -8
 git -C "$WT" checkout -q -- . && git -C "$WT" clean -fdq
 exit $rc
